@@ -187,6 +187,15 @@ def match_known(prop, viol, known):
             ok = False
         if ok and "text_regex" in m and not re.search(m["text_regex"], (viol.get("case") or {}).get("text", ""), re.S):
             ok = False
+        if ok and "culprits_in" in m:
+            # every comment named as the cause of an unsolved line must be one of the listed placements
+            cs = re.findall(r"\[unsolved-culprit: ([^\]]*)\]", viol.get("detail", ""))
+            if not cs or any(x not in m["culprits_in"] for x in cs):
+                ok = False
+        if ok and "culprit_regex" in m:
+            cs = re.findall(r"\[unsolved-culprit: ([^\]]*)\]", viol.get("detail", ""))
+            if not cs or any(not re.match(m["culprit_regex"], x) for x in cs):
+                ok = False
         if ok and "text_sha256" in m and hashlib.sha256(((viol.get("case") or {}).get("text") or "").encode()).hexdigest() not in m["text_sha256"]:
             ok = False
         if ok and "label_regex" in m and not re.search(m["label_regex"], (viol.get("case") or {}).get("label", "")):
